@@ -6,7 +6,7 @@ CONSTANTS
   PanicJobs = {"j2"}
   Caught = FALSE
   DriverLoop = FALSE
-  Fix = FALSE
+  Fix = TRUE
   TimedFifo = TRUE
   MaxLen = 40
   NoTimeout = FALSE
